@@ -234,14 +234,15 @@ func (cc *capConsumer) run() {
 				return
 			}
 			dc := decodeChunk(cc.cap.kinds[cc.output], chunk.ID, chunk.Data)
-			cc.cap.mu.Lock()
-			cc.chunks = append(cc.chunks, dc)
-			cc.cap.mu.Unlock()
 			if cc.confirm {
+				// confirmed BEFORE it is shown to the harness: a harness that waits for the delivery must not race with the confirmation
 				cc.args.OnChunkConsumed(chunk)
 			} else {
 				held = append(held, chunk)
 			}
+			cc.cap.mu.Lock()
+			cc.chunks = append(cc.chunks, dc)
+			cc.cap.mu.Unlock()
 		case <-cc.args.InputClosed.Channel():
 			return
 		}
@@ -1042,6 +1043,11 @@ func enumerate(ctx *seq.Ctx) {
 		ctx.Case(id, true, fmt.Sprintf("keys=%d tag=%q conns=%d outputs=%d first=%s second=%s", n, tmpl.text(n), conns, outputs, q(pc.a), q(pc.b)),
 			func() (string, string) { return runPair(pc) })
 	}
+	// the groups that widen one dimension each come first: they are small, and a deadline that cuts the run on a loaded machine
+	// cuts the large pair product below, not them
+	if enumerateDimensions(ctx) {
+		return
+	}
 	// 1 and 2 key fields: every ordered pair x every template x {1,2} connections
 	for n := 1; n <= 2; n++ {
 		total := pow(len(sigma), n)
@@ -1092,9 +1098,6 @@ func enumerate(ctx *seq.Ctx) {
 				emit(2, 1, 1, i, j, 2)
 			}
 		}
-	}
-	if enumerateDimensions(ctx) {
-		return
 	}
 	if !ctx.Thorough() {
 		return
